@@ -59,6 +59,14 @@ def main(argv=None) -> int:
         seed = core.derive_seed(os.environ.get("VERIF_SEED")) % (2**31)
 
     t0 = time.time()
+    # private Hypothesis storage (constants cache) per run: concurrent runs never share mutable state
+    if not os.environ.get("HYPOTHESIS_STORAGE_DIRECTORY"):
+        import atexit, shutil, tempfile
+
+        d = tempfile.mkdtemp(prefix="vp-hyp-")
+        os.environ["HYPOTHESIS_STORAGE_DIRECTORY"] = d
+        pid = os.getpid()
+        atexit.register(lambda: os.getpid() == pid and shutil.rmtree(d, ignore_errors=True))
     try:
         core.silence_library()
         core.assert_library_location()
